@@ -98,7 +98,7 @@ def _gen_points(t, dim, n, scale, origin, kind, hbase):
 def gen(t, prop, tier):
     dim = t.wchoice([(1, 2), (2, 4), (3, 4)])
     if prop == 'C17':
-        cls = t.choice(sorted(REORDER))
+        cls = t.wchoice([(c, 4 if c in ('ll', 'box', 'ci') else 1) for c in sorted(REORDER)])
     else:
         cls = t.wchoice([(c, 1 if c in ('sfc', 'esfc', 'strat_sfc') else 4) for c in CLS])
     knobs = {}
